@@ -578,6 +578,15 @@ pub fn c16(ops: &dyn SeqOps, cx: &mut Cx) {
                     }
                     o => { cx.outcome("src-ser-fail"); cx.violate(&format!("{:?}-ser-{}", src, o.class()).to_lowercase(), json!({"value": vdesc(i, &want), "context": format!("{:?}", ctx), "observed": o.describe()})) }
                 }
+                // the stream that `serialize_with_schema` writes for the wrapper is the vector's too
+                if ctx == Ctx::Alone {
+                    cx.evals += 1;
+                    match ops.ser_schema(i, *src) {
+                        Out::Ok((sb, _)) if sb == vb || (mask.len() == vb.len() && sb.len() == vb.len() && vcore::checks::masked_eq(&sb, &vb, &mask)) => cx.outcome("schema-stream-identical"),
+                        Out::Ok((sb, _)) => cx.violate(&format!("{:?}-schema-stream-differs-from-vec", src).to_lowercase(), json!({"value": vdesc(i, &want), "len": sb.len(), "vec_len": vb.len()})),
+                        o => cx.violate(&format!("{:?}-schema-ser-{}", src, o.class()).to_lowercase(), json!({"value": vdesc(i, &want), "observed": o.describe()})),
+                    }
+                }
                 // deserializes as the vector type in both modes
                 let (f, e) = ops.deser(&b, ctx);
                 match (&f, &e) {
